@@ -130,6 +130,57 @@ def exact_cases(src, tier):
     return C
 
 
+FOLDED = (b'Received: from a.example.com (a.example.com [192.0.2.1])\n\tby mx.example.org with ESMTP id 1234;\n\t Mon, 1 Jan 2024 10:00:00 +0000\n'
+          b'Received: from b.example.com\n by a.example.com;\n  Mon, 1 Jan 2024 09:59:00 +0000\n'
+          b'To: user1@example.com,\n\tuser2@example.com\n'
+          b'Subject: =?UTF-8?Q?caf=C3=A9?=\n =?UTF-8?Q?_au_lait?= and\n\tmore text\n'
+          b'Date: Mon,\n 1 Jan 2024 10:00:00\n +0000\n'
+          b'X-Id: 1\n'
+          b'X-Label: one\n'
+          b'MIME-Version: 1.0\n'
+          b'Content-Type: multipart/mixed;\n\tboundary="b1";\n charset=utf-8\n')
+FOLDED_BODY = (b'preamble\n--b1\nContent-Type: text/plain;\n\tcharset=utf-8\nContent-Transfer-Encoding: quoted-printable\n\nhello =\nworld caf=C3=A9\n'
+               b'--b1\nContent-Type: application/octet-stream;\n name="x"\nContent-Transfer-Encoding: base64\n\naGVsbG8gYXR0YWNobWVudAo=\n--b1--\nepilogue\n')
+
+
+def lookup_cases(tier):
+    """Rewrites that FOLLOW a condition which has looked at the message: folded and encoded header values, a folded Content-Type
+    with a boundary, encoded bodies and attachments are read (unfolded, decoded, split into parts) by header / date / body /
+    attachment conditions, and only then the message is rewritten.  Reading must not change what is written: every original field
+    keeps its value including its folding, the body is byte-identical (Spec.rewriteOk).  Undisturbed runs only."""
+    C = []
+    m = FOLDED + b'\n' + FOLDED_BODY
+    md = 'maildir "%s/src" {\n\tmatch %%s\n}\n' % R
+    dst = '%s/dst' % R
+    conds = [('all', 'all'),
+             ('received', 'header "Received" /ESMTP id/'),
+             ('received2', 'header "Received" /a\\.example\\.com;/'),
+             ('subject', 'header "Subject" /au lait/'),
+             ('to', 'header { "Cc" "To" } /user2/'),
+             ('label', 'header "X-Label" /one/'),
+             ('ctype', 'header "Content-Type" /boundary/'),
+             ('date', 'date > 1 seconds'),
+             ('body', 'body /epilogue/'),
+             ('attachment', 'attachment body /hello attachment/'),
+             ('attachment-header', 'attachment header "Content-Type" /octet-stream/'),
+             ('neg', '! header "Received" /nowhere/ and header "Subject" /text/'),
+             ('or', 'header "Subject" /nothing/ or header "To" /user1/')]
+    if tier == 'quick':
+        acts = [('label', 'label "new"', [[(XL, b'one new')]], (), 'src/new'),
+                ('add-header', 'add-header "X-Added" "v1"', [[(XA, b'v1')]], (), 'src/new'),
+                ('exdev', 'move "%s"' % dst, [[]], (dst,), 'dst/new')]
+    else:
+        acts = [('label', 'label "new"', [[(XL, b'one new')]], (), 'src/new'),
+                ('add-header', 'add-header "X-Added" "v1"', [[(XA, b'v1')]], (), 'src/new'),
+                ('set-subject', 'add-header "Subject" "replaced"', [[(b'Subject', b'replaced')]], (), 'src/new'),
+                ('label-add', 'label "new" add-header "X-Added" "v1"', [[(XL, b'one new')], [(XL, b'one new'), (XA, b'v1')]], (), 'src/new'),
+                ('exdev', 'move "%s"' % dst, [[]], (dst,), 'dst/new')]
+    for cn, cond in conds:
+        for an, act, stages, devmap, fin in acts:
+            C.append(Case('lookup-%s-%s' % (cn, an), md % (cond + ' ' + act), m, stages, devmap=devmap, final_dir=fin, exact=True))
+    return C
+
+
 def plans(case, clean, tier, final_len):
     calls = clean.calls()
     out = []
@@ -246,7 +297,7 @@ def judge(case, r, cls):
 
 
 def stage(rep, tools):
-    cs = cases(rep.tier) + exact_cases(tools.sc.src, rep.tier)
+    cs = cases(rep.tier) + exact_cases(tools.sc.src, rep.tier) + lookup_cases(rep.tier)
     recs, blobs = [], {}
     with cf.ThreadPoolExecutor(min(vlib.NCPU, len(cs))) as ex:
         for rr, bb in ex.map(lambda c: sweep(tools, c, rep.tier), cs):
@@ -265,7 +316,7 @@ def stage(rep, tools):
                 nbad += 1
                 if nbad <= 6:
                     hdr = c.msg.index(b'\n\n') + 2
-                    rep.finding('unlisted', {'stage': 'process', 'family': 'exact sizes', 'scenario': c.name, 'config': c.conf, 'message_bytes': len(c.msg),
+                    rep.finding('unlisted', {'stage': 'process', 'family': 'read before rewrite' if c.name.startswith('lookup-') else 'exact sizes', 'scenario': c.name, 'config': c.conf, 'message_bytes': len(c.msg),
                                              'header_block_bytes': hdr, 'message_head': c.msg[:hdr][:1500].decode('latin-1'),
                                              'intended_settings': [[(k.decode(), '%d bytes: %s' % (len(v), (v[:40] + b'...' + v[-20:] if len(v) > 70 else v).decode('latin-1')))
                                                                     for k, v in st] for st in c.stages],
@@ -310,7 +361,7 @@ def stage(rep, tools):
 
 
 def replay(tools, j):
-    cs = [c for c in cases('thorough') + exact_cases(tools.sc.src, 'thorough') if c.name == j.get('scenario')]
+    cs = [c for c in cases('thorough') + exact_cases(tools.sc.src, 'thorough') + lookup_cases('thorough') if c.name == j.get('scenario')]
     if not cs:
         print('unknown scenario', j.get('scenario'))
         return
